@@ -189,7 +189,15 @@ pub fn suites(id: &str, tier: Tier) -> Vec<Suite> {
             v
         }
         "C03" => {
-            let bp = burst_programs();
+            let mut bp = burst_programs();
+            for p in plain(2) {
+                if p.contains(&|x| matches!(x, P::Burst(..) | P::Event(_) | P::Channel(..) | P::AbortChild(..) | P::Stream(_) | P::StreamMap(_))) {
+                    bp.push(P::MapEvent(Box::new(P::All(vec![p.clone(), P::Burst(s0(), s0())]))).normalized());
+                    bp.push(P::Trigger(s0(), Box::new(p.clone())).normalized());
+                }
+            }
+            bp.sort();
+            bp.dedup();
             let mut v = vec![];
             for host in [HostKind::CoreCmd, HostKind::Bincode, HostKind::Json] {
                 v.push(Suite { name: "bursts", host, programs: bp.clone(), bounds: bounds(tier.pick(6, 9), 0, 0, 1, 2) });
@@ -207,16 +215,13 @@ pub fn suites(id: &str, tier: Tier) -> Vec<Suite> {
             v
         }
         "C05" => {
-            let base = plain(tier.pick(1, 2));
+            let base = plain(2);
             let mut v = vec![];
             for host in [HostKind::Direct, HostKind::StreamPoll, HostKind::CoreCmd, HostKind::Bincode, HostKind::Json] {
                 for k in 1..=tier.pick(3, 4) {
-                    if q && k == 2 && host != HostKind::Direct && host != HostKind::StreamPoll {
-                        continue;
-                    }
                     v.push(Suite { name: "wrapped", host, programs: wrapped(&base, k), bounds: bounds(tier.pick(5, 7), 0, 1, 1, 2) });
                 }
-                v.push(Suite { name: "plain", host, programs: plain(2), bounds: bounds(tier.pick(6, 8), 0, 1, 1, 2) });
+                v.push(Suite { name: "plain", host, programs: plain(tier.pick(2, 3)), bounds: bounds(tier.pick(6, 7), 0, 1, 1, 2) });
             }
             v.push(Suite { name: "plain/legacy", host: HostKind::CoreLegacy, programs: legacy_programs(3), bounds: bounds(tier.pick(6, 8), 0, 0, 1, 2) });
             v
